@@ -1209,10 +1209,17 @@ func closePadsLastSector(p *Prog) (out []gFinding) {
 // the storage's UID on every successful path, an empty storage included.
 func walkersEmitStorageID(p *Prog) (out []gFinding) {
 	for _, spec := range []string{"lib/authenticode.hashMsiDir", "lib/authenticode.msiToTarDir"} {
-		fn := p.Func(spec)
+		fn := msiWalker(p, spec)
 		if fn == nil {
 			out = append(out, gFinding{Key: spec, Pos: "-", OK: false, Detail: "function not found"})
 			continue
+		}
+		// the storage being walked: what ListDir is asked about
+		var walked ssa.Value
+		for _, ci := range p.callsIn(fn, "(*lib/comdoc.ComDoc).ListDir") {
+			if a := ci.Common().Args; len(a) > 1 {
+				walked = a[1]
+			}
 		}
 		var emits []ssa.CallInstruction
 		for _, b := range fn.Blocks {
@@ -1223,7 +1230,19 @@ func walkersEmitStorageID(p *Prog) (out []gFinding) {
 				}
 				for _, a := range ci.Common().Args {
 					if sl, ok := a.(*ssa.Slice); ok {
-						if _, f, _ := p.fieldAddr(sl.X); f == "UID" {
+						if _, f, base := p.fieldAddr(sl.X); f == "UID" {
+							for {
+								fa, ok := base.(*ssa.FieldAddr) // promoted through an embedded struct
+								if !ok {
+									break
+								}
+								base = fa.X
+							}
+							if walked != nil && base != nil && base != walked {
+								out = append(out, gFinding{Key: p.FName(fn) + " hands on the UID of the storage it walks", Pos: p.Pos(ci.Pos()), OK: false,
+									Detail: "the UID handed on is not the one of the storage whose entries were just listed (the ListDir argument): for a nested storage the class id that follows its contents is another storage's, the tar form and the direct form of the digest differ and a freshly signed nested MSI fails verification"})
+								continue
+							}
 							emits = append(emits, ci)
 						}
 					}
@@ -2561,9 +2580,9 @@ func copyCountsNotTrusted(p *Prog) (out []gFinding) {
 // the loop is also what keeps the last-check time fresh, so a server without it turns unhealthy by
 // staleness after three intervals whatever its tokens do.
 func healthLoopAlwaysStarted(p *Prog) (out []gFinding) {
-	fn := p.Func("server.(*Server).startHealthCheck")
+	fn := healthStarter(p)
 	if fn == nil {
-		return []gFinding{{Key: "(*Server).startHealthCheck", Pos: "-", OK: false, Detail: "function not found"}}
+		return []gFinding{{Key: "(*Server).startHealthCheck", Pos: "-", OK: false, Detail: "no single function of package server holds the `go healthCheckLoop` statement"}}
 	}
 	var gos []ssa.Instruction
 	for _, b := range fn.Blocks {
